@@ -62,8 +62,8 @@ pub fn base_state(bytes: Vec<u8>) -> Result<State, String> {
     Ok(State { bytes, exp, comment: p.comment })
 }
 
-pub const N_OPS: usize = 12;
-pub const OPS: [&str; N_OPS] = ["nothing", "file-stored", "file-deflated", "dir", "file+extra", "raw-copy", "two-files", "symlink", "aligned-large", "bzip2-empty+utf8", "refused-call-only", "refused-call-then-file"];
+pub const N_OPS: usize = 13;
+pub const OPS: [&str; N_OPS] = ["nothing", "file-stored", "file-deflated", "dir", "file+extra", "raw-copy", "two-files", "symlink", "aligned-large", "bzip2-empty+utf8", "refused-call-only", "refused-call-then-file", "file+refused-finish-then-finish"];
 pub const COMMENTS: [&str; 3] = ["keep", "shorter", "longer"];
 /// comment actions 0..2 are the three above; 100 + n = replace by a comment of exactly n bytes
 pub fn cm_name(cm: usize) -> String {
@@ -136,12 +136,28 @@ pub fn round_calls(op: usize, cm: usize, finish: bool, round: usize, seed: u64) 
             calls.push(Call::AddDir { name: "d".repeat(65536), opts: FOpts::m(0) });
             file(format!("r{round}/after-refusal"), 8, &c300, &mut calls, &mut exp);
         }
+        // a file, then finish() refused for a comment one byte too long, the comment corrected (below), finish() again
+        12 => {
+            file(format!("r{round}/before-refused-finish"), 8, &c300, &mut calls, &mut exp);
+            calls.push(Call::SetComment(vec![b'k'; 65536]));
+            calls.push(Call::Finish);
+            if new_comment.is_none() {
+                calls.push(Call::SetComment(b"corrected".to_vec()));
+            }
+        }
         _ => {}
+    }
+    if let (Some(c), _) = (&new_comment, ()) {
+        if op == 12 && round % 2 == 0 {
+            // (set before the entries on even rounds: set it again after the refused finish)
+            calls.push(Call::SetComment(c.clone()));
+        }
     }
     if let (Some(c), false) = (&new_comment, round % 2 == 0) {
         calls.push(Call::SetComment(c.clone()));
     }
     calls.push(if finish { Call::Finish } else { Call::Drop });
+    let new_comment = if op == 12 && new_comment.is_none() { Some(b"corrected".to_vec()) } else { new_comment };
     (calls, exp, new_comment)
 }
 
@@ -153,7 +169,11 @@ pub fn step(s: &State, op: usize, cm: usize, finish: bool, round: usize, seed: u
     let (res, bytes) = exec_append(&s.bytes, &calls, src);
     let names: Vec<&str> = std::iter::once("new_append").chain(calls.iter().map(|c| c.opname())).collect();
     // the deliberately over-long name: refusal expected (index i of `res` is call i-1; res[0] is new_append)
-    let refusal_expected = |i: usize| i >= 1 && matches!(calls.get(i - 1), Some(Call::StartFile { name, .. }) | Some(Call::AddDir { name, .. }) if name.len() > 65535);
+    let refusal_expected = |i: usize| {
+        i >= 1
+            && (matches!(calls.get(i - 1), Some(Call::StartFile { name, .. }) | Some(Call::AddDir { name, .. }) if name.len() > 65535)
+                || (matches!(calls.get(i - 1), Some(Call::Finish)) && i >= 2 && matches!(calls.get(i - 2), Some(Call::SetComment(c)) if c.len() > 65535)))
+    };
     if res.iter().enumerate().any(|(i, r)| refusal_expected(i) && r.is_ok()) {
         // accepted: C02's business (unrepresentable input); this round says nothing about appending
         st.class("over-long-name-accepted(C02)");
@@ -340,6 +360,11 @@ pub fn bases(seed: u64, thorough: bool) -> Vec<(String, Vec<u8>)> {
     v.push(("builder:reordered-cd+gaps".into(), b(Spec { entries: vec![e(b"g1", 0), ESpec { gap_before: 9, ..e(b"g2", 8) }], cd_order: Some(vec![1, 0]), gap_before_cd: 4, ..Default::default() })));
     v.push(("builder:method-14".into(), b(Spec { entries: vec![ESpec { raw_payload: Some(b"opaque".to_vec()), content: vec![], ..e(b"lzma", 14) }, e(b"ok", 8)], ..Default::default() })));
     {
+        // prepended data in front of exactly 65535 entries: the next entry makes ZIP64 end records necessary
+        let spec = Spec { prefix: vec![0x5a; 123], entries: (0..65535).map(|i| ESpec { name: format!("p{i}").into_bytes(), method: 0, content: vec![], ..Default::default() }).collect(), comment: b"prefixed, 65535".to_vec(), ..Default::default() };
+        v.push(("builder:prefix+65535-entries".into(), b(spec)));
+    }
+    {
         // more than 65535 entries (ZIP64 end records become mandatory at 65536): in both tiers
         for n in if thorough { vec![65535usize, 65536, 70000] } else { vec![65535usize, 65536] } {
             let mut calls = vec![];
@@ -473,6 +498,10 @@ pub fn run(args: &Args) -> i32 {
             let big = state.bytes.len() > 1 << 20;
             // big bases (> 1 MiB, i.e. the 65535+-entry ones): reduced transition set, two rounds
             if big && !((cm == 0 || cm == 2) && (op == 0 || op == 1 || op == 3)) {
+                return;
+            }
+            // the refused-finish operation takes part in the first two rounds
+            if op == 12 && r >= 2 {
                 return;
             }
             let mut h = hist.clone();
